@@ -33,6 +33,22 @@ def cases(tier, seed):
         L = 10.0 ** round(u) if i % 3 == 0 else 10.0 ** u
         cost = 8 if kind.startswith(("lens", "tmatrix", "multi")) else 1
         out.append({"id": "u-%d" % i, "kind": "units", "ckind": kind, "cfg": cfg, "L": L, "scaling": float(rng.uniform(0.3, 1.5)), "cost": cost})
+    # default call form (no theory named): the theory HoloPy picks must not depend on the unit of length either
+    na = 40 if tier == "quick" else 800
+    for i in range(na):
+        o = scat.gen_optics(rng)
+        k = scat.kmed(o)
+        nsph = 2 + i % 2
+        r = [float(rng.uniform(0.5, 3.0)) / k for _ in range(nsph)]
+        sep = float(loguniform(rng, 2.2, 120.0)) * max(r)          # in units of the largest radius: both sides of the 30-radius rule
+        u = rng.normal(size=3); u /= np.linalg.norm(u)
+        mem = []
+        for j in range(nsph):
+            c = np.array([0.5, 0.3, 20.0 / k + 2 * sep]) + u * sep * j / (nsph - 1)
+            mem.append({"t": "sphere", "n": scat.gen_index(rng, o, False), "r": r[j], "c": [float(v) for v in c]})
+        cfg = {"optics": o, "scat": {"t": "spheres", "members": mem}, "theory": "auto", "det": scat.gen_grid(rng, maxn=4)}
+        uu = float(rng.uniform(-4, 4))
+        out.append({"id": "auto-%d" % i, "kind": "auto", "cfg": cfg, "L": 10.0 ** round(uu) if i % 2 else 10.0 ** uu, "sep_over_rmax": sep / max(r), "cost": 6})
     return out
 
 
@@ -52,8 +68,28 @@ def _all(cfg, scaling, ckind):
     return res
 
 
+def _run_auto(case):
+    from holopy.scattering import calc_holo, calc_field
+    from holopy.scattering.interface import determine_default_theory_for
+    cfg, L = case["cfg"], case["L"]
+    out = {}
+    for nm, c in (("base", cfg), ("scaled", scat.scale_config(cfg, L)), ("reindexed", scat.reindex_config(cfg))):
+        o = c["optics"]
+        sc = scat.build_scatterer(c["scat"])
+        det = scat.build_detector(c["det"])
+        a = dict(medium_index=o["medium_index"], illum_wavelen=o["illum_wavelen"], illum_polarization=o["illum_polarization"])
+        out[nm] = (type(determine_default_theory_for(sc)).__name__, calc_holo(det, sc, **a), calc_field(det, sc, **a))
+    th = out["base"][0]
+    flags = {"default_theory_same_after_rescaling": bool(out["scaled"][0] == th), "default_theory_same_after_reindexing": bool(out["reindexed"][0] == th)}
+    resid = {"scale_holo@auto": relmax(out["scaled"][1], out["base"][1]), "scale_field@auto": relmax(out["scaled"][2], out["base"][2]),
+             "reindex_holo@auto": relmax(out["reindexed"][1], out["base"][1]), "reindex_field@auto": relmax(out["reindexed"][2], out["base"][2])}
+    return {"resid": resid, "flags": flags, "fmax": fnum(float(np.abs(out["base"][2].values).max())), "chosen": [out[k][0] for k in ("base", "scaled", "reindexed")]}
+
+
 @scat.guarded
 def run_case(case):
+    if case["kind"] == "auto":
+        return _run_auto(case)
     cfg, L = case["cfg"], case["L"]
     base = _all(cfg, case["scaling"], case["ckind"])
     sc = _all(scat.scale_config(cfg, L), case["scaling"], case["ckind"])
@@ -85,6 +121,15 @@ def _tol(case):
 
 def judge(case, obs):
     out = []
+    if case["kind"] == "auto":
+        for k, v in obs["flags"].items():
+            if not v:
+                out.append({"mech": "auto.%s" % k, "detail": "chosen (base, scaled, reindexed) = %s; separation %.3g r_max, L=%.6g" % (obs.get("chosen"), case["sep_over_rmax"], case["L"])})
+        TOL = 3 * math.sqrt(1e-5) if "Multisphere" in (obs.get("chosen") or []) else 1e-8
+        for k, v in obs["resid"].items():
+            if not v <= TOL:
+                out.append({"mech": "auto.%s" % k.replace("@", "."), "detail": "%s=%.3e > %.0e; chosen=%s separation %.3g r_max L=%.6g" % (k, v, TOL, obs.get("chosen"), case["sep_over_rmax"], case["L"])})
+        return out
     TOL = _tol(case)
     for k, v in obs["resid"].items():
         if not v <= TOL:
